@@ -10,7 +10,6 @@ import (
 	"fmt"
 	"net"
 	"os"
-	"runtime"
 	"strconv"
 	"strings"
 	"sync"
@@ -38,6 +37,11 @@ type verdictSpec struct {
 	kind string // "stat" | "panic"
 	st   statusSpec
 	pval string // panic text
+	// the stage is a chain of 3 plugins: the one at pos gives this verdict, those before it
+	// pass (nil or a non-nil OK status), decoy is what the LAST plugin would answer if it were
+	// (wrongly) still asked after a refusal
+	pos   int
+	decoy *verdictSpec
 }
 
 type handlerSpec struct {
@@ -59,8 +63,9 @@ type caseCfg struct {
 	env      string // normal | ctxexp | closed | notgoon | nospawn | prh | hdrerr | hdrpanic
 	rawBytes []byte // for hdrerr / hdrpanic
 
-	mu       sync.Mutex
-	invoked  []string
+	mu             sync.Mutex
+	chainContinued []string
+	invoked        []string
 	parkCh   chan struct{}
 	entered  chan struct{}
 	unparked bool
@@ -93,13 +98,22 @@ func lookupCase(meta []byte) *caseCfg {
 
 type peeker interface{ PeekMeta(string) []byte }
 
-type vplugin struct{}
+type vplugin struct{ idx int }
 
 var preReadHeaderVerdict atomic.Value // *verdictSpec or nil-valued
 
-func (vplugin) Name() string { return "verdict" }
+func (p vplugin) Name() string { return "verdict-" + strconv.Itoa(p.idx) }
 
-func act(ctx interface{}, stage string) *erpc.Status {
+func doVerdict(v verdictSpec) *erpc.Status {
+	if v.kind == "panic" {
+		panic(v.pval)
+	}
+	return erpc.NewStatus(v.st.code, v.st.msg, v.st.cause)
+}
+
+func (v verdictSpec) refuses() bool { return v.kind == "panic" || v.st.code != 0 }
+
+func act(ctx interface{}, stage string, idx int) *erpc.Status {
 	pk, ok := ctx.(peeker)
 	if !ok {
 		return nil
@@ -108,17 +122,37 @@ func act(ctx interface{}, stage string) *erpc.Status {
 	if c == nil {
 		return nil
 	}
-	v, ok := c.verdicts[stage]
-	if !ok {
+	pass := func() *erpc.Status {
+		if idx%2 == 1 {
+			return erpc.NewStatus(0, "pass", "")
+		}
 		return nil
 	}
-	if v.kind == "panic" {
-		panic(v.pval)
+	v, ok := c.verdicts[stage]
+	if !ok {
+		return pass()
 	}
-	return erpc.NewStatus(v.st.code, v.st.msg, v.st.cause)
+	c.mu.Lock()
+	if v.refuses() && idx > v.pos {
+		c.chainContinued = append(c.chainContinued, fmt.Sprintf("%s:%d>%d", stage, idx, v.pos))
+	}
+	c.mu.Unlock()
+	switch {
+	case idx < v.pos:
+		return pass()
+	case idx == v.pos:
+		return doVerdict(v)
+	}
+	if v.decoy != nil && idx == 2 {
+		return doVerdict(*v.decoy)
+	}
+	return nil
 }
 
-func (vplugin) PreReadHeader(erpc.PreCtx) error {
+func (p vplugin) PreReadHeader(erpc.PreCtx) error {
+	if p.idx != 0 {
+		return nil
+	}
 	if v, _ := preReadHeaderVerdict.Load().(*verdictSpec); v != nil {
 		if v.kind == "panic" {
 			panic(v.pval)
@@ -127,14 +161,14 @@ func (vplugin) PreReadHeader(erpc.PreCtx) error {
 	}
 	return nil
 }
-func (vplugin) PostReadCallHeader(c erpc.ReadCtx) *erpc.Status { return act(c, "prch") }
-func (vplugin) PreReadCallBody(c erpc.ReadCtx) *erpc.Status    { return act(c, "prcb") }
-func (vplugin) PostReadCallBody(c erpc.ReadCtx) *erpc.Status   { return act(c, "porcb") }
-func (vplugin) PreWriteReply(c erpc.WriteCtx) *erpc.Status     { return act(c, "pwr") }
-func (vplugin) PostWriteReply(c erpc.WriteCtx) *erpc.Status    { return act(c, "powr") }
-func (vplugin) PostReadPushHeader(c erpc.ReadCtx) *erpc.Status { return act(c, "prph") }
-func (vplugin) PreReadPushBody(c erpc.ReadCtx) *erpc.Status    { return act(c, "prpb") }
-func (vplugin) PostReadPushBody(c erpc.ReadCtx) *erpc.Status   { return act(c, "porpb") }
+func (p vplugin) PostReadCallHeader(c erpc.ReadCtx) *erpc.Status { return act(c, "prch", p.idx) }
+func (p vplugin) PreReadCallBody(c erpc.ReadCtx) *erpc.Status    { return act(c, "prcb", p.idx) }
+func (p vplugin) PostReadCallBody(c erpc.ReadCtx) *erpc.Status   { return act(c, "porcb", p.idx) }
+func (p vplugin) PreWriteReply(c erpc.WriteCtx) *erpc.Status     { return act(c, "pwr", p.idx) }
+func (p vplugin) PostWriteReply(c erpc.WriteCtx) *erpc.Status    { return act(c, "powr", p.idx) }
+func (p vplugin) PostReadPushHeader(c erpc.ReadCtx) *erpc.Status { return act(c, "prph", p.idx) }
+func (p vplugin) PreReadPushBody(c erpc.ReadCtx) *erpc.Status    { return act(c, "prpb", p.idx) }
+func (p vplugin) PostReadPushBody(c erpc.ReadCtx) *erpc.Status   { return act(c, "porpb", p.idx) }
 
 // ---------------------------------------------------------------- handlers
 
@@ -224,7 +258,7 @@ func setup() {
 	Quiet()
 	xfer.Reg(failFilter{})
 	mk := func(unknown bool) erpc.Peer {
-		p := erpc.NewPeer(erpc.PeerConfig{}, vplugin{})
+		p := erpc.NewPeer(erpc.PeerConfig{}, vplugin{0}, vplugin{1}, vplugin{2})
 		callPath = p.RouteCallFunc(CH)
 		pushPath = p.RoutePushFunc(PH)
 		pingPath = p.RouteCallFunc(Ping)
@@ -429,31 +463,53 @@ func quiesce() {
 // it otherwise, and drains the connection.
 func finish(c []*caseCfg, sess erpc.Session, rp *RawPeer, frames []reply, ended bool) observedSet {
 	disc := ended
+	stuck := func(why string) observedSet {
+		stuckCount++
+		rp.Conn.Close()
+		return observedSet{frames: frames, disconnected: disc, stuck: true, stuckWhy: why}
+	}
 	if !ended {
-		erpc.VerifWaitHandlers(sess)
+		if !waitHandlers(sess) {
+			return stuck("handler contexts still running after " + caseWatchdog.String())
+		}
 		if selfClosing(sess) {
 			disc = true
 		} else {
-			if len(c) == 1 && c[0].ty > 5 && os.Getenv("C03_DEBUG") != "" {
-				buf := make([]byte, 1<<20)
-				fmt.Fprintf(os.Stderr, "DEBUG not self closing: status=%s\n%s\n", erpc.VerifStatusName(erpc.VerifSessionStatus(sess)), buf[:runtime.Stack(buf, true)])
-				os.Exit(9)
-			}
 			go sess.Close()
 		}
-		more, _ := recvUntil(rp, false, 10*time.Second)
+		more, _, timedOut := recvUntilEOF(rp, caseWatchdog)
 		frames = append(frames, more...)
+		if timedOut {
+			return stuck("the transport did not reach EOF after the session started closing")
+		}
 	}
-	WaitUntil(10*time.Second, func() bool { return !sess.Health() })
-	erpc.VerifWaitHandlers(sess)
+	if !WaitUntil(caseWatchdog, func() bool { return !sess.Health() }) {
+		return stuck("session still healthy after its transport ended")
+	}
+	if !waitHandlers(sess) {
+		return stuck("handler contexts still running after the transport ended")
+	}
 	rp.Conn.Close()
 	quiesce()
 	return observedSet{frames: frames, disconnected: disc}
 }
 
-type observedSet struct {
-	frames       []reply
-	disconnected bool
+// recvUntilEOF drains the connection; timedOut = the read deadline passed before the end
+func recvUntilEOF(rp *RawPeer, to time.Duration) (frames []reply, ended, timedOut bool) {
+	for {
+		m, err := rp.Recv(to)
+		if err != nil {
+			if ne, ok := err.(net.Error); ok && ne.Timeout() {
+				return frames, true, true
+			}
+			return frames, true, false
+		}
+		r := toReply(m)
+		if r.seq == pingSeq {
+			continue
+		}
+		frames = append(frames, r)
+	}
 }
 
 // protocols the scripted peer and the served session speak: the raw protocol in the quick
@@ -464,6 +520,34 @@ var (
 	sessionCount  int
 	lastProto     string
 )
+
+type observedSet struct {
+	frames       []reply
+	disconnected bool
+	stuck        bool
+	stuckWhy     string
+}
+
+// per-case watchdog: waiting for the handler contexts / for the end of the transport is
+// bounded; a case that exceeds it is recorded (oracle failure) and after maxStuck of them the
+// run stops generating, with its statistics written
+const (
+	caseWatchdog = 10 * time.Second
+	maxStuck     = 2
+)
+
+var stuckCount int
+
+func waitHandlers(sess erpc.Session) bool {
+	done := make(chan struct{})
+	go func() { erpc.VerifWaitHandlers(sess); close(done) }()
+	select {
+	case <-done:
+		return true
+	case <-time.After(caseWatchdog):
+		return false
+	}
+}
 
 func newSession(p erpc.Peer) (erpc.Session, *RawPeer) {
 	cc, sc := TCPPair()
@@ -616,16 +700,39 @@ var stageOrder = []string{"prh", "prch", "prcb", "porcb", "pwr", "powr", "prph",
 
 func (c *caseCfg) inputs() string {
 	var vs []string
+	one := func(v verdictSpec) string {
+		if v.kind == "panic" {
+			return VL(VS("panic"), causeVal(v.pval, false))
+		}
+		return VL(VS("stat"), VZ(int64(v.st.code)), VB([]byte(v.st.msg)), causeVal(v.st.cause, false))
+	}
 	for _, st := range stageOrder {
 		v, ok := c.verdicts[st]
 		if !ok {
 			continue
 		}
-		if v.kind == "panic" {
-			vs = append(vs, VL(VS(st), VL(VS("panic"), causeVal(v.pval, false))))
-		} else {
-			vs = append(vs, VL(VS(st), VL(VS("stat"), VZ(int64(v.st.code)), VB([]byte(v.st.msg)), causeVal(v.st.cause, false))))
+		if st == "prh" {
+			vs = append(vs, VL(VS(st), one(v)))
+			continue
 		}
+		items := []string{VS("chain")}
+		for idx := 0; idx < 3; idx++ {
+			switch {
+			case idx < v.pos:
+				if idx%2 == 1 {
+					items = append(items, one(verdictSpec{kind: "stat", st: statusSpec{0, "pass", ""}}))
+				} else {
+					items = append(items, VS("nil"))
+				}
+			case idx == v.pos:
+				items = append(items, one(v))
+			case v.decoy != nil && idx == 2:
+				items = append(items, one(*v.decoy))
+			default:
+				items = append(items, VS("nil"))
+			}
+		}
+		vs = append(vs, VL(VS(st), VL(items...)))
 	}
 	read := VS("bodyok")
 	switch c.body {
@@ -673,6 +780,10 @@ func (c *caseCfg) injected() map[string]bool {
 	for _, v := range c.verdicts {
 		m[v.st.cause] = true
 		m[v.pval] = true
+		if v.decoy != nil {
+			m[v.decoy.st.cause] = true
+			m[v.decoy.pval] = true
+		}
 	}
 	m[c.handler.st.cause] = true
 	m[c.handler.pval] = true
@@ -714,6 +825,20 @@ func oracle(st *Stats, idx int, c *caseCfg, o observedSet) {
 	h := c.human()
 	if ninv > 1 {
 		st.Fail(idx, "handled-twice", fmt.Sprintf("handler invoked %d times for one frame", ninv), h)
+	}
+	c.mu.Lock()
+	cont := append([]string(nil), c.chainContinued...)
+	c.mu.Unlock()
+	if len(cont) > 0 {
+		st.Fail(idx, "plugin-chain-continued", fmt.Sprintf("plugins were still called after a refusal on their stage: %v", cont), h)
+	}
+	if o.stuck {
+		key := "handler-context-stuck"
+		if c.ty != erpc.TypeCall && c.ty != erpc.TypePush && c.ty != erpc.TypeReply {
+			key = "unsupported-type-not-disconnected"
+		}
+		st.Fail(idx, key, "the frame's handler context never finished / the transport did not reach EOF within the watchdog ("+o.stuckWhy+")", h)
+		return
 	}
 	own := 0
 	for _, f := range o.frames {
@@ -874,6 +999,19 @@ func genStatus(cfg *RunCfg, tag string) statusSpec {
 }
 
 func genVerdict(cfg *RunCfg, stage string, kind int) verdictSpec {
+	v := genVerdict1(cfg, stage, kind)
+	if stage == "prh" {
+		return v
+	}
+	v.pos = cfg.Rng.Intn(3)
+	if v.refuses() && v.pos < 2 && cfg.Rng.Intn(2) == 0 {
+		d := genVerdict1(cfg, "decoy-"+stage, []int{0, 0, 1, 3}[cfg.Rng.Intn(4)])
+		v.decoy = &d
+	}
+	return v
+}
+
+func genVerdict1(cfg *RunCfg, stage string, kind int) verdictSpec {
 	switch kind {
 	case 0:
 		return verdictSpec{kind: "stat", st: genStatus(cfg, "pc-"+stage)}
@@ -1032,6 +1170,14 @@ func main() {
 		}
 		cases.Delete(c.id)
 		idx++
+		if stuckCount >= maxStuck {
+			// fail fast: the implementation leaves sessions stuck; more cases would only wait
+			st.Count("aborted-after-stuck-cases")
+			st.Evaluations = idx
+			st.DistinctNontrivial = len(distinct)
+			st.Write(cfg, w)
+			os.Exit(0)
+		}
 	}
 
 	n := cfg.N
